@@ -26,6 +26,18 @@ fn main() {
             println!("{}", rep.to_json());
         }
         "import" => { println!("{}", import_suite::run().to_json()); }
+        "vecreads" => {
+            unsafe { std::env::set_var("RAC_READS", "1"); }
+            let fmt: String = arg(&args, "--format", "bytes".to_string());
+            let rep = vec_suite::run(&fmt, arg(&args, "--depth", 3usize), arg(&args, "--random-secs", 5u64), arg(&args, "--random-depth", 10usize), seed, thorough, threads);
+            println!("{}", rep.to_json());
+        }
+        "vecchain" => {
+            unsafe { std::env::set_var("RAC_CHAIN_ALPHABET", "1"); }
+            let fmt: String = arg(&args, "--format", "bytes".to_string());
+            let rep = vec_suite::run(&fmt, arg(&args, "--depth", 4usize), arg(&args, "--random-secs", 5u64), arg(&args, "--random-depth", 16usize), seed, thorough, threads);
+            println!("{}", rep.to_json());
+        }
         "vecpages" => {
             unsafe { std::env::set_var("RAC_PAGE_ALPHABET", "1"); }
             let fmt: String = arg(&args, "--format", "pco".to_string());
